@@ -631,6 +631,9 @@ func (c *Ctx) applyContract(fr *Frame, st *State, reach, name string, pos token.
 		if mentionsTrace(en.Expr, c.sp) {
 			continue // about the callee's own ghost call log: meaningless here
 		}
+		if en.Only != "" {
+			continue // an obligation of one property's check (possibly a known finding): never assumed
+		}
 		tv, err := post.eval(en.Expr)
 		if err != nil {
 			c.unsupportedf("ensures of %s: %v", con.Key, err)
